@@ -149,6 +149,20 @@ func replayMain(args []string) {
 						Bytes []interface{}          `json:"bytes"`
 					}
 					json.Unmarshal(line, &rq)
+					if rq.Mode == "date" {
+						var raw map[string]interface{}
+						json.Unmarshal(line, &raw)
+						ev := M{"id": rq.ID, "ev": "Date", "fam": rq.Fam, "fn": "from", "day": 0, "msod": 0, "out": M{"o": fail}}
+						if fl, ok := raw["flags"].(map[string]interface{}); ok {
+							for k, v := range fl {
+								ev[k] = v
+							}
+						}
+						b, _ = json.Marshal(ev)
+						b = append(b, '\n')
+						results <- b
+						continue
+					}
 					if rq.Mode == "compile" || rq.Mode == "denote" {
 						ev := M{"id": rq.ID, "ev": map[string]string{"compile": "Lex", "denote": "Denote"}[rq.Mode], "fam": rq.Fam, "bytes": rq.Bytes, "toks": []interface{}{}, "out": M{"o": fail}}
 						b, _ = json.Marshal(ev)
